@@ -642,16 +642,17 @@ func genRace(t *rapid.T) RaceCase {
 }
 
 func TestC08(t *testing.T) {
-	rec.SetRule("operation sequences over {F failure, S success, A ask, t advance 0.4*timeout, T advance timeout+1s, w advance 1.1s} on the health-check breaker, the olla engine breaker and the unification breaker (several threshold/half-open/success configurations): ALL sequences up to length 6 (quick) / 8 (thorough) plus rapid sequences up to length 60, each followed by a recovery suffix; plus concurrent callers racing on a timed-out breaker. non-trivial = the breaker trips and a later ask has a determined answer; distinct by (breaker parameters, sequence)")
+	rec.SetRule("operation sequences over {F failure, S success, A ask, t advance 0.4*timeout, T advance timeout+1s, w advance 1.1s} on the health-check breaker, the olla engine breaker and the unification breaker (several threshold/half-open/success configurations): ALL sequences up to length 6 (quick) / 8 (thorough) plus rapid sequences up to length 60, each followed by a recovery suffix; plus concurrent callers racing on a timed-out breaker. Sub-check 'viauser': the health breaker behind HealthClient.Check (scripted HTTP client, failures with 503 or a retryable connection error) and the engine breaker behind olla.Service.ProxyRequestToEndpoints (real raw backend): ops = one check / request against a failing or working endpoint and time advances, incl. 'trip, then steady traffic below the timeout'; the same reference automaton judges whether the endpoint may be contacted. non-trivial = the breaker trips and a later ask has a determined answer; distinct by (breaker parameters, sequence)")
 	rec.Assume("elapsed time is simulated by rewinding the breakers' stored timestamps (overlay hook), exact for code of the form now - stored > timeout")
 	rec.Assume("where the statement is silent (a success reported while open, asks beyond the first in the engine's half-open state) both answers are accepted")
-	if ev.Replay(t, rec, "sequence", runCase) || ev.Replay(t, rec, "race", runRace) {
+	if ev.Replay(t, rec, "sequence", runCase) || ev.Replay(t, rec, "race", runRace) || ev.Replay(t, rec, "viauser", runUser) {
 		return
 	}
 	exhaustive(t, rec.Pick(6, 8))
 	rec.Exhaustive(true)
 	ev.Check(t, rec, "sequence", rec.Pick(4000, 40000), genCase, runCase)
 	ev.Check(t, rec, "race", rec.Pick(300, 3000), genRace, runRace)
+	ev.Check(t, rec, "viauser", rec.Pick(150, 4000), genUser, runUser)
 	rec.Extra("asks_total", atomic.LoadInt64(&askTotal))
 	rec.Extra("asks_with_determined_answer", atomic.LoadInt64(&askDetermined))
 }
